@@ -123,6 +123,8 @@ SPECS = {
     'literal': (dict(unpivot_fields=[{'name': 'x1', 'keys': {'k': 'one'}}, {'name': 'x2', 'keys': {'k': 'two'}}]), True),
     'literal-reversed': (dict(unpivot_fields=[{'name': 'x2', 'keys': {'k': 'two'}}, {'name': 'x1', 'keys': {'k': 'one'}}]), True),
     'backref': (dict(unpivot_fields=[{'name': 'x([0-9])', 'keys': {'k': r'n\1'}}]), True),
+    'named-group': (dict(unpivot_fields=[{'name': 'x(?P<n>[0-9])', 'keys': {'k': r'n\g<n>'}}]), True),
+    'numbered-g': (dict(unpivot_fields=[{'name': 'x([0-9])', 'keys': {'k': r'\g<1>!'}}]), True),
     'overlap': (dict(unpivot_fields=[{'name': 'x1', 'keys': {'k': 'first'}}, {'name': 'x.', 'keys': {'k': 'rest'}}]), True),
     'constant': (dict(unpivot_fields=[{'name': 'x[12]', 'keys': {'k': 'c', 'n': 7}}]), True),
     'noregex-meta': (dict(unpivot_fields=[{'name': 'x.', 'keys': {'k': 'dot'}}]), False),
